@@ -80,6 +80,12 @@ SHORT_CONFIGS = [
     (None, '"', ['a"'], '"ab'),
     ("aa", "a", [], "ab"),
     ('B"', '"', ['"\n'], 'B"\na'),
+    # patterns whose first character recurs inside them (partial matches must be found at every start position)
+    (None, None, ["aab"], "ab"),
+    (None, None, ["abac"], "abc"),
+    (None, "aab", [], "ab"),
+    (None, '""x', [], '"xa'),
+    (None, None, ["\n\nU"], "\nUa"),
 ]
 LONG_CONFIGS = [
     ('Bot message: "', '"', []),
@@ -91,6 +97,8 @@ LONG_CONFIGS = [
     (None, '"', ['"\n']),
     (None, None, ["\nUser intent: ", '"\n']),
     (None, "</s>", ["\n\n"]),
+    (None, None, ["\n\nUser"]),
+    ('Bot message: "', '"', ["\n\nUser intent: "]),
     ('Bot: "', '">', ["XY"]),
 ]
 CTYPES = ("gen", "chat", "ai")
